@@ -30,7 +30,7 @@ CONSTANTS
   MatcherKinds,  \* matcher kinds allowed on label a
   MatcherKindsB, \* matcher kinds allowed on label b
   Leaves,        \* subset of {"sel","seloff","num","time","vec"}
-  UnFns,         \* subset of {"abs","neg","scalar","vecs","absent","rate","lot","lotsub","absentot","lrepc","lrepa","lrepcx","lrepdel","ljoin"}
+  UnFns,         \* subset of {"abs","neg","scalar","vecs","absent","rate","lot","lotsub","absentot","lrepc","lrepa","lrepcx","lrepdel","lrepdelx","ljoin","ljoine"}
   AggOps,        \* subset of {"sum","count","topk","cv"}
   AggLabelSets,  \* label sets usable in by()/without()
   ArithOps, CmpOps, SetOps,  \* binary operators
@@ -60,7 +60,7 @@ TimeE               == [k |-> "time"]
 VecE(e)             == [k |-> "vec", e |-> e]
 Fn(f, e)            == [k |-> "fn", f |-> f, e |-> e, dst |-> "", src |-> "", re |-> "", repl |-> ""]
 LRep(e, dst, repl, src, re) == [k |-> "fn", f |-> "lrep", e |-> e, dst |-> dst, src |-> src, re |-> re, repl |-> repl]
-LJoin(e, dst)       == [k |-> "fn", f |-> "ljoin", e |-> e, dst |-> dst, src |-> "", re |-> "", repl |-> ""]
+LJoin(e, dst, sep)  == [k |-> "fn", f |-> "ljoin", e |-> e, dst |-> dst, src |-> "", re |-> "", repl |-> sep]   \* repl holds the separator
 Agg(op, mod, ls, e) == [k |-> "agg", op |-> op, mod |-> mod, ls |-> ls, e |-> e]
 Bin(op, bool, vm, ls, grp, inc, l, r) ==
   [k |-> "bin", op |-> op, bool |-> bool, vm |-> vm, ls |-> ls, grp |-> grp, inc |-> inc, l |-> l, r |-> r]
@@ -119,7 +119,7 @@ excludeLabel(s, names)     == [s EXCEPT !.exc = @ \cup names, !.inc = @ \ names,
 \* matcher kinds: which are `=`, which are `=` or `=~`
 \* (fix EmptyEq: labelsFromSelectors skips `label=""`, which matches series *without* the label)
 EqKinds == IF "EmptyEq" \in Fixes THEN {"eq", "eqy"} ELSE {"eq", "eqy", "empty"}
-GuaKinds == EqKinds \cup {"re", "reany"}
+GuaKinds == EqKinds \cup {"re", "reany", "reopt"}
 SelLabels(e, kinds) == (IF e.ma \in kinds THEN {"a"} ELSE {}) \cup (IF e.mb \in kinds THEN {"b"} ELSE {})
 
 \* func checkConditions(s, op, isBool) (isConditional, _)
@@ -314,6 +314,7 @@ MatchOK(kind, val) ==
   CASE kind = "none" -> TRUE       [] kind = "eq" -> val = "x"      [] kind = "eqy" -> val = "y"
     [] kind = "neq" -> val # "x"   [] kind = "re" -> val = "x"      [] kind = "nre" -> val # "x"
     [] kind = "empty" -> val = Absent [] kind = "nonempty" -> val # Absent [] kind = "reany" -> TRUE
+    [] kind = "reopt" -> val = "x" \/ val = Absent       \* =~"x|"
 
 RECURSIVE SumV(_)
 SumV(S) == IF S = {} THEN 0 ELSE LET s == CHOOSE x \in S : TRUE IN ArithV("+", s.v, SumV(S \ {s}))
@@ -407,7 +408,9 @@ Conc(e, db) ==
                 [] e.f = "scalar" -> IF Cardinality(x.s) = 1 THEN ScaR((CHOOSE s \in x.s : TRUE).v) ELSE ScaR(NaN)
                 [] e.f \in {"absent", "absentot"} -> IF x.s = {} THEN VecR({AbsentLabels(e.e)}) ELSE VecR({})
                 [] e.f = "lrep"   -> LabelReplace(e, x.s)
-                [] e.f = "ljoin"  -> MapSeries(x.s, LAMBDA s : [s EXCEPT ![e.dst] = StrOrEmpty(s.a) \o "," \o StrOrEmpty(s.b)]))
+                [] e.f = "ljoin"  -> MapSeries(x.s, LAMBDA s :
+                                        LET j == StrOrEmpty(s.a) \o e.repl \o StrOrEmpty(s.b)
+                                        IN [s EXCEPT ![e.dst] = IF j = "" THEN Absent ELSE j]))
     [] e.k = "bin"  ->
          LET x == Conc(e.l, db)
              y == Conc(e.r, db)
@@ -443,7 +446,9 @@ ExpectEmpty(kind, op) == kind \in {"static", "unless"} \/ (kind = "join" /\ op #
 Judged(e, kind)       == kind \in {"or", "unless"} \/ (~HasOr(e.l) /\ ~HasOr(e.r))
 PremiseOn(named, db)  == \A s \in db : \A l \in named : s[l] # Absent
 Premise(e, db)        == PremiseOn(Named(e) \ {"n"}, db)
+\* (a database on which the operation fails to evaluate - duplicate series, many-to-many matching - says nothing)
 C12_HoldsOn(e, kinds, db) ==
+  Conc(e, db).t = "err" \/
   \A kind \in kinds :
      IF ExpectEmpty(kind, e.op) THEN Result(e, db) = {} ELSE Result(e, db) = Result(e.l, db)
 JudgedFlags(e) == IF e.k = "bin" THEN {kind \in FlagsAt(e, "") : Judged(e, kind)} ELSE {}
@@ -479,7 +484,9 @@ UnarySet(e) ==
   \cup (IF v /\ "lrepcx" \in UnFns THEN {LRep(e, "c", "x", "a", "x")} ELSE {})
   \cup (IF v /\ "lrepa" \in UnFns THEN {LRep(e, "a", "x", "b", ".*")} ELSE {})
   \cup (IF v /\ "lrepdel" \in UnFns THEN {LRep(e, "a", "", "b", ".*")} ELSE {})
-  \cup (IF v /\ "ljoin" \in UnFns THEN {LJoin(e, "c")} ELSE {})
+  \cup (IF v /\ "lrepdelx" \in UnFns THEN {LRep(e, "a", "", "a", "x")} ELSE {})
+  \cup (IF v /\ "ljoin" \in UnFns THEN {LJoin(e, "c", ",")} ELSE {})
+  \cup (IF v /\ "ljoine" \in UnFns THEN {LJoin(e, "c", "")} ELSE {})
   \cup (IF v THEN {Agg(op, mod, ls, e) : op \in AggOps, mod \in {"by", "without"}, ls \in AggLabelSets} ELSE {})
   \cup (IF v THEN {Agg(op, "none", {}, e) : op \in AggOps} ELSE {})
 
